@@ -489,6 +489,21 @@ func genUnit(r *rng, kind string, s string) unit {
 		if strings.Contains(val, "link_"+s) {
 			sens("", fmt.Sprintf("def link_%s():\n    return 40030\n", s), fmt.Sprintf("def link_%s():\n    return 40031\n", s), "body of a function that is a dict key / set element")
 		}
+	case "targetsig":
+		// edits of the TARGET function's own signature that leave its bytecode, constants and defaults alone: the only part
+		// of the environment that differs is the signature
+		switch r.below(3) {
+		case 0:
+			u.own = fmt.Sprintf("@target()\ndef t_%s(self):\n    v = 40030\n    return None\n", s)
+			sens("", fmt.Sprintf("def t_%s(self):\n", s), fmt.Sprintf("def t_%s(this):\n", s), "the target's own parameter is renamed")
+		case 1:
+			u.own = fmt.Sprintf("@target()\ndef t_%s(self, opt=40030):\n    v = opt\n    return None\n", s)
+			sens("", fmt.Sprintf("def t_%s(self, opt=40030):\n", s), fmt.Sprintf("def t_%s(self, *, opt=40030):\n", s), "the target's optional parameter becomes keyword-only")
+		default:
+			u.own = fmt.Sprintf("@target()\ndef t_%s(self, a=1, b=40030):\n    v = [a, b]\n    return None\n", s)
+			sens("", fmt.Sprintf("def t_%s(self, a=1, b=40030):\n", s), fmt.Sprintf("def t_%s(self, a=1, c=40030):\n", s), "one of the target's optional parameters is renamed")
+		}
+		u.ownLbl = []string{"t_" + s}
 	case "sharedhelper":
 		// loaded by two packages; no nested load (a module in the middle of a nested load that is waited for by a
 		// second loader is defect D4 of the module loader, area Loader)
@@ -521,7 +536,7 @@ func (u *unit) rebase(k int) {
 var unitKinds = []string{"const", "const", "global", "container", "container", "container", "shared", "fact", "mutual", "closure",
 	"defaults", "nested", "cyclic", "cyclic", "deep", "deep", "predeclared", "environ", "flag", "targetref", "cache", "labels", "helper",
 	"fncontainer", "lambdacycle", "samename", "kwonly", "signature", "builtinalias", "values", "fnvalues", "codecycle",
-	"recshared", "recshared", "hashed", "hashed", "eqdistinct", "eqdistinct", "hostkeys", "hostkeys"}
+	"recshared", "recshared", "hashed", "hashed", "eqdistinct", "eqdistinct", "hostkeys", "hostkeys", "targetsig"}
 
 // Not generated: "freevarrec" (a nested function that calls itself through a free variable). Such a project
 // does not load: starlark.ExecFile freezes the module's globals and (*Function).Freeze / (*cell).Freeze of the
@@ -581,7 +596,7 @@ func assemble(pkg string, units []unit, sfx []string) (string, []Mutation, []str
 	muts = append(muts,
 		Mutation{Kind: "insens", File: file, Old: fmt.Sprintf("UNREF_%s = 90010\n", tag), New: fmt.Sprintf("UNREF_%s = 90011\n", tag), What: "value of an unreferenced global", Feature: "unreferenced"},
 		Mutation{Kind: "insens", File: file, Old: fmt.Sprintf("UNREF_%s = 90010\n", tag), New: fmt.Sprintf("# a comment\n\nUNREF_%s  =  90010   # trailing\n\n", tag), What: "comments, blank lines and spacing", Feature: "comments"})
-	if len(uses) > 0 {
+	if len(uses) > 0 && strings.Count(b.String(), fmt.Sprintf("    \"\"\"doc %s v1\"\"\"\n", sfx[0])) == 1 {
 		muts = append(muts, Mutation{Kind: "insens", File: file, Old: fmt.Sprintf("    \"\"\"doc %s v1\"\"\"\n", sfx[0]), New: fmt.Sprintf("    \"\"\"doc %s v2, longer\"\"\"\n", sfx[0]), What: "docstring of a target", Feature: "docstring"})
 	}
 	return b.String(), muts, feats
